@@ -345,3 +345,9 @@ def check(model, rep, tier):
     chain_clause(model, rep, funcs)
     geometry_clause(model, rep, funcs)
     padding_clause(model, rep, funcs)
+    from .generic import interpolation_obligations, functions_in, axis_convention_obligations
+    interpolation_obligations(model, rep, functions_in(model, ["acryo/backend/_upsample.py", "acryo/alignment/_base.py", "acryo/alignment/_concrete.py"]), "3 geometry")
+    rep.floor("INTERP", 3, "(landscape refinement and template-bank interpolation sites)")
+    axis_convention_obligations(model, rep, ["acryo/backend/_upsample.py", "acryo/backend/_zncc.py", "acryo/backend/_fsc.py"], "3 geometry", floor=2)
+    from .C08 import wedge_call_obligation
+    wedge_call_obligation(model, rep, "2 chain")
